@@ -53,6 +53,7 @@ func natconnEngine(rng *Rng, n int, out *Out, args map[string]string) {
 		out.Op(fmt.Sprintf("nc new timeout=%d", int64(timeout)), "ok")
 		out.Stat(fmt.Sprintf("timeout.%v", timeout), 1)
 		var sockDeadline time.Time
+		nWrites, firstWriteDNS := 0, false // what the client has sent on this association so far
 		nops := 2 + r.Intn(12)
 		for k := 0; k < nops; k++ {
 			if r.Chance(15) {
@@ -73,6 +74,10 @@ func natconnEngine(rng *Rng, n int, out *Out, args map[string]string) {
 				t0 := time.Now()
 				nc.WriteTo([]byte("x"), addr)
 				t1 := time.Now()
+				if nWrites == 0 {
+					firstWriteDNS = dns
+				}
+				nWrites++
 				if pc.failWrite {
 					out.Stat("op.write.failed-send", 1)
 				}
@@ -122,6 +127,11 @@ func natconnEngine(rng *Rng, n int, out *Out, args map[string]string) {
 					now = d
 					if d.Before(t0) || d.After(t1) {
 						out.Oracle("C14", "fast close set the deadline %v away from the time of the response", d.Sub(t0))
+					}
+					// from the property text, not from the model: only an association whose ONLY traffic was one DNS query may be
+					// closed by a response; any other client datagram promised a lifetime that a response must not cut short
+					if !(nWrites == 1 && firstWriteDNS) && sockDeadline.After(t1) {
+						out.Oracle("C14", "a response moved the deadline earlier by %v (to now) although the client had sent %d datagram(s) on the association (first to DNS: %v; timeout %v): only an association whose only traffic was one DNS query may be closed by the response", sockDeadline.Sub(d), nWrites, firstWriteDNS, timeout)
 					}
 					sockDeadline = d
 					set = fmt.Sprint(ns(d))
